@@ -45,7 +45,10 @@ Granularity / abstractions (part of the trusted correspondence):
 * a job function either returns by itself (`cfg.blocking j = false`) or blocks
   until its context is cancelled (`cfg.blocking j = true`: `wRun j` enabled iff
   the caller's ctx is cancelled or the group stopped).  Job functions and
-  `resFunc` that never return are outside the model.
+  `resFunc` that never return are outside the model.  A job function that PANICS is inside: the
+  panic is recovered by `runWorkItem` into an error result, the worker then stores the result and
+  puts itself back exactly as after a normal return, so `wRun j` stands for both (`cfg.panics j`
+  says which; no guard reads it).  An unrecovered panic (e.g. in `resFunc`) is outside the model.
 * the reader's local `range` slice is the sub-list of `rbatch` with its group.
 * `accepted`, `delivered`, `started`, `skipped`, `dropped`, `panicked` are history (ghost) variables:
   no guard reads them; `panicked` records a `WaitGroup.Done` on a zero counter, `dropped` a worker
@@ -117,6 +120,7 @@ structure Cfg where
   ncallers   : Nat
   jobs       : Nat → Nat       -- number of jobs of caller g
   blocking   : Job → Bool      -- the job function waits for its ctx
+  panics     : Job → Bool := fun _ => false   -- the job function panics (recovered by `runWorkItem`)
 
 structure State where
   callers     : Nat → Caller
@@ -336,7 +340,10 @@ def step (cfg : Cfg) (s : State) : Label → Option State
   | .wCheckErr j =>
     if j ∈ s.wStart ∧ s.stopped = true then
       some { s with wStart := s.wStart.erase j, wStore := s.wStore ++ [j], skipped := s.skipped ++ [j] } else none
-  -- the job function returns
+  -- the job function returns — or panics: `runWorkItem` (since "fix: worker group: a panicking work
+  -- item becomes an error result") recovers the panic into an error result and `worker.Do` carries on
+  -- exactly as after a normal return (result stored, worker put back once): one and the same step;
+  -- which jobs panic is `cfg.panics`, visible only in the observation (Spec/C14 `observeCaller`)
   | .wRun j =>
     if j ∈ s.wRun ∧ (cfg.blocking j = false ∨ (s.callers j.grp).cancelled = true ∨ s.stopped = true) then
       some { s with wRun := s.wRun.erase j, wStore := s.wStore ++ [j] } else none
